@@ -10,7 +10,8 @@ import (
 	"time"
 )
 
-// TestVerifReproC17MqttTakeover: minimal standalone reproduction of the known finding
+// TestVerifReproC17MqttTakeover: minimal standalone reproduction of the finding (fixed in /repo by
+// 5a3328e, kept as a regression probe: it passes on HEAD, fails on the original tree)
 // "clean-session-takeover: new connection dropped from the registry ..." (not part of the check's
 // run regexp). maxAllowedConnection=2, cleanSession=true: c0 connects, a second connection takes
 // over c0, the superseded socket is closed. On the unchanged tree the old connection's teardown
@@ -25,7 +26,7 @@ func TestVerifReproC17MqttTakeover(t *testing.T) {
 	defer r.b.close()
 	addr := fmt.Sprintf("127.0.0.1:%d", r.b.listener.Addr().(*net.TCPAddr).Port)
 	dial := func(id string) (net.Conn, string) {
-		c, err := net.Dial("tcp", addr)
+		c, err := vfC17MDial(addr)
 		if err != nil {
 			t.Fatalf("VF-INCONCLUSIVE dial: %v", err)
 		}
